@@ -62,14 +62,15 @@ def specArraySize : Val → Val
 /-- a bare extracted value compared with a text literal: equal iff it is that string -/
 def specJsonText (j : Json) (s : List Char) : Val := .bool (j = .str s)
 
-def evalSpec (doc : Json) : E → Val
-  | .col => .json doc
+def evalSpec (doc : Env) : E → Val
+  | .col => .json doc.doc
   | .lit l => evalLit l
   | .jx x (.path p) => specNav (evalSpec doc x) p
   | .jx _ (.raw _) => .unsup
   | .jxs _ _ => .unsup
   | .bracket x i => specNav (evalSpec doc x) [i.seg]
   | .paren x => evalSpec doc x
+  | .parseJson x => parseVal doc.pj (evalSpec doc x)
   | .cast x t => specCast t (evalSpec doc x)
   | .upper x => mapText (TFun.app .upper) (specText (evalSpec doc x))
   | .lower x => mapText (TFun.app .lower) (specText (evalSpec doc x))
@@ -185,7 +186,7 @@ def Val.isEmptyArr : Val → Bool
 
 /-- excluded: C11/text-of-non-path-variant-keeps-quotes (conversion of a string that was not extracted by a
     `:` path — a subscript, or the VARIANT itself), C11/array-size-empty -/
-def Use.ok (doc : Json) : Use → Bool
+def Use.ok (doc : Env) : Use → Bool
   | .bare a => a.ok
   | .cast a t => a.ok && castOK t (evalSpec doc a.toE) && (a.isPath || !(evalSpec doc a.toE).isJsonStr)
   | .upper a => a.ok && (a.isPath || !(evalSpec doc a.toE).isJsonStr)
@@ -199,7 +200,7 @@ def mixedEq : Val → Val → Bool
   | _, _ => false
 
 /-- excluded: C11/string-eq-literal (a bare extracted value compared with a text literal) -/
-def Ctx.ok (doc : Json) : Ctx → Bool
+def Ctx.ok (doc : Env) : Ctx → Bool
   | .use u => u.ok doc
   | .lit _ => true
   | .bin o a b => a.ok doc && b.ok doc && !(o == .eq && mixedEq (evalSpec doc a.toE) (evalSpec doc b.toE))
